@@ -320,6 +320,12 @@ class Affine:
                 if ("opt", p["l"]) in st and not p["p"]:
                     st[("opt", l)] = st[("opt", p["l"])]
                 src = p["l"]
+                if ("tuplen", src) in st:
+                    # (head, tail) = slice.split_at(n): the halves carry their lengths
+                    if len(p["p"]) == 1 and isinstance(p["p"][0], dict) and p["p"][0].get("i") in (0, 1):
+                        st[("slicelen", l)] = st[("tuplen", src)][p["p"][0]["i"]]
+                    elif not p["p"]:
+                        st[("tuplen", l)] = st[("tuplen", src)]
                 if ("reslen", src) in st:
                     if p["p"]:
                         st[("len", ("L", l))] = st[("reslen", src)]
@@ -361,6 +367,12 @@ class Affine:
             x = self.op_form(st, rv["ops"][0])
             if x is not None:
                 st[("some", l)] = x
+        elif "agg" in rv and rv["agg"] == "adt" and rv["adt"] == "std::result::Result" and rv["variant"] == "Ok" and rv["ops"]:
+            # Ok(vec): the payload's length travels with the Result (same key a summarised `-> Result<Vec<u8>>` helper sets)
+            p = op_place(rv["ops"][0])
+            st.pop(("reslen", l), None)
+            if p is not None and not p["p"] and ("len", ("L", p["l"])) in st:
+                st[("reslen", l)] = st[("len", ("L", p["l"]))]
         elif "agg" in rv and rv["agg"] == "adt" and rv["adt"] == "std::option::Option" and rv["variant"] == "None":
             st.pop(("opt", l), None)
             st[("optnone", l)] = True
@@ -403,6 +415,7 @@ class Affine:
             so.pop(("L", dl), None)
             so.pop(("opt", dl), None)
             so.pop(("reslen", dl), None)
+            so.pop(("tuplen", dl), None)
             so.pop(("len", ("L", dl)), None)
             f = None
             if name == "len" and args:
@@ -449,6 +462,12 @@ class Affine:
                 sl = self._range_len(st, args[0], args[1])
                 if sl is not None:
                     so[("slicelen", dl)] = sl
+            elif name in ("split_at", "split_at_mut", "split_at_checked") and len(args) == 2 and "slice" in c["path"] or name == "split_at" and "[T]" in c["path"]:
+                so.pop(("tuplen", dl), None)
+                whole = self._slice_len(st, args[0])
+                n = self.op_form(st, args[1])
+                if whole is not None and n is not None and name != "split_at_checked":
+                    so[("tuplen", dl)] = (n, whole.sub(n))
             elif c["path"] in self.summaries and self.summaries[c["path"]].get("ok_len_arg") is not None:
                 n = self.op_form(st, args[self.summaries[c["path"]]["ok_len_arg"]])
                 if n is not None:
